@@ -346,6 +346,10 @@ PROPS["C19"] = dict(
     steps=[
         dict(layer="native", package="rt", monitor="c19", shards_quick=8, shards_thorough=16, timeout_quick=900),
         dict(layer="asan", package="rt", monitor="c19", shards_thorough=8, tier="thorough"),
+        # auxiliary: reports are filtered to racing accesses located in /repo sources (tokio's epoll-based
+        # synchronisation is invisible to TSan and shows up as reports inside its I/O driver)
+        dict(layer="tsan", package="rt", monitor="c19", shards_thorough=4, tier="thorough", extra=["--part", "transfer"], tag="tsan-transfer", timeout_thorough=3600),
+        dict(layer="tsan", package="rt", monitor="c19", shards_thorough=1, tier="thorough", extra=["--part", "ids"], tag="tsan-ids", timeout_thorough=3600),
     ],
 )
 SETUP_EXTRA += [("asan", "rt")]
